@@ -54,9 +54,19 @@ theorem gen_pauli (I : K) (k : Nat) : pauliTable I k = Model.C20.pauli I k := by
 theorem gen_pauliCoeff (I : K) (J : M22 K) (k : Nat) : pauliCoeff I J k = Model.C20.pauliCoeff I J k := by
   rcases k with _ | _ | _ | k <;> simp [pauliCoeff, Model.C20.pauliCoeff]
 
+/-- documented default arguments: orientation 0 for every element, vortex retardance `π` and rotation 0, broadcast path -/
+theorem gen_defaults (pi : K) :
+    retarderThetaDefault pi = 0 ∧ diattenuatorThetaDefault pi = 0 ∧ hwpThetaDefault pi = 0 ∧ qwpThetaDefault pi = 0 ∧
+    polarizerThetaDefault pi = 0 ∧ vortexRetardanceDefault pi = pi ∧ vortexRotateDefault pi = 0 ∧
+    muellerBroadcastDefault = true := by
+  refine ⟨?_, ?_, ?_, ?_, ?_, ?_, ?_, by decide⟩ <;>
+    simp [retarderThetaDefault, diattenuatorThetaDefault, hwpThetaDefault, qwpThetaDefault, polarizerThetaDefault,
+      vortexRetardanceDefault, vortexRotateDefault]
+
 end gen
 
-/-- structure of the source recognised in the AST (an unrecognised shape makes the item `untranslatable` and widens the
+/-- structure of the source, three-valued recognisers (`false` = recognised and wrong, e.g. kron operands swapped or an einsum that is not
+the Kronecker ordering; an unrecognised shape makes the item `untranslatable`, is reported as TIE-DEGRADED and widens the
 correspondence instead): `_empty_jones` is all zeros; `jones_to_mueller` returns `real(U @ kron(conj J, J) @ inv U)` in both
 the broadcast and the `np.kron` branch; `broadcast_kron` is the Kronecker product; a 2-D (scalar) field passes through
 the adapter unchanged; the five documented propagation routines are supported -/
@@ -183,7 +193,10 @@ theorem malus (pi c s x y : K) (h : c ^ 2 + s ^ 2 = 1) :
 
 /-! ## rotating an element = conjugating it with the rotation matrix -/
 
-/-- `element(θ) = R(-θ) · element(0) · R(θ)` for retarders and diattenuators (`cos 0 = 1`, `sin 0 = 0`) -/
+/-- `element(θ) = R(-θ) · element(0) · R(θ)` for retarders and diattenuators (`cos 0 = 1`, `sin 0 = 0`).  For these two the
+source BUILDS the element this way, so this is close to a restatement of the generated definition (what it adds is that the
+un-rotated element really is the bare diagonal core); the content of the clause is in `rotate_compose` and, for the vortex
+retarder, in `vortex_rotate_eq_conj`. -/
 theorem rotate_eq_conj (u α c s : K) :
     retarder u c s = ((rotTable c (-s)).mul (retarder u 1 0)).mul (rotTable c s) ∧
     diattenuator α c s = ((rotTable c (-s)).mul (diattenuator α 1 0)).mul (rotTable c s) := by
@@ -201,6 +214,14 @@ theorem rotate_compose (u α c s c' s' : K) :
   constructor <;> apply M22.ext' <;>
     simp only [Model.C20.retarder, Model.C20.diattenuator, Model.C20.sandwich, Model.C20.rot, M22.mul, ofInt_eq] <;>
     push_cast <;> ring
+
+/-- the `rotate` argument of the vector vortex retarder conjugates the un-rotated element with the rotation matrix:
+`vortex(…, rotate = ρ) = R(-ρ) · vortex(…, rotate = 0) · R(ρ)` (over the generated chain of writes and products) -/
+theorem vortex_rotate_eq_conj (mI ch sh c s cr sr : K) :
+    vortex mI ch sh c s cr sr = ((rotTable cr (-sr)).mul (vortex mI ch sh c s 1 0)).mul (rotTable cr sr) := by
+  simp only [vortex, gen_rot]
+  apply M22.ext' <;>
+    simp only [Model.C20.rot, M22.mul, M22.add, M22.smul, M22.set, M22.zero, ofInt_eq] <;> push_cast <;> ring
 
 /-! ## Pauli decomposition -/
 
@@ -272,6 +293,48 @@ theorem unitary_to_orthogonal (J : M22 ℂ) (h : J.mul (conjT J) = M22.one) :
   have h' : toMat J * (toMat J)ᴴ = 1 := by rw [← toMat_conjT, ← toMat_mul, h, toMat_one]
   simp only [muellerOf_eq]
   exact ⟨mueller_orthogonal _ h', mueller_00 _ h'⟩
+
+/-! ### composed corollaries with the real functions (`c = cos θ`, `s = sin θ`, `u = e^{iδ}`, `mI = -i`) -/
+
+theorem star_ofReal' (x : ℝ) : star ((x : ℝ) : ℂ) = x := by rw [Complex.star_def, Complex.conj_ofReal]
+
+theorem cos_sq_add_sin_sq' (θ : ℝ) : ((Real.cos θ : ℝ) : ℂ) ^ 2 + ((Real.sin θ : ℝ) : ℂ) ^ 2 = 1 := by
+  exact_mod_cast Real.cos_sq_add_sin_sq θ
+
+theorem exp_mul_star (δ : ℝ) : Complex.exp (δ * I) * star (Complex.exp (δ * I)) = 1 := by
+  rw [Complex.star_def, ← Complex.exp_conj, ← Complex.exp_add]; simp
+
+/-- the Mueller matrix of EVERY linear retarder the library builds (retardance `δ`, orientation `θ`) is orthogonal with
+`M₀₀ = 1` -/
+theorem retarder_mueller_orthogonal (δ θ : ℝ) :
+    let J := retarder (Complex.exp (δ * I)) ((Real.cos θ : ℝ) : ℂ) ((Real.sin θ : ℝ) : ℂ)
+    muellerOf J * (muellerOf J)ᵀ = 1 ∧ muellerOf J 0 0 = 1 :=
+  unitary_to_orthogonal _ (retarder_unitary _ _ _ (star_ofReal' _) (star_ofReal' _) (cos_sq_add_sin_sq' θ) (exp_mul_star δ)).1
+
+/-- the same for the vector vortex retarder of every charge `q`, azimuth `θ`, retardance `δ` and rotation `ρ` -/
+theorem vortex_mueller_orthogonal (q θ δ ρ : ℝ) :
+    let J := vortex (-I) ((Real.cos (δ / 2) : ℝ) : ℂ) ((Real.sin (δ / 2) : ℝ) : ℂ) ((Real.cos (θ * q) : ℝ) : ℂ)
+      ((Real.sin (θ * q) : ℝ) : ℂ) ((Real.cos ρ : ℝ) : ℂ) ((Real.sin ρ : ℝ) : ℂ)
+    muellerOf J * (muellerOf J)ᵀ = 1 ∧ muellerOf J 0 0 = 1 :=
+  unitary_to_orthogonal _ (vortex_unitary _ _ _ _ _ _ _ (by simp) (by simp) (star_ofReal' _) (star_ofReal' _) (star_ofReal' _)
+    (star_ofReal' _) (star_ofReal' _) (star_ofReal' _) (cos_sq_add_sin_sq' _) (cos_sq_add_sin_sq' _) (cos_sq_add_sin_sq' _)).1
+
+/-- the wave plates with the retardances the source passes on: `e^{iπ} = -1`, `e^{iπ/2} = i`; hence a half-wave plate is an
+involution and two quarter-wave plates make a half-wave plate, at every orientation -/
+theorem wave_plates (θ : ℝ) :
+    let c := ((Real.cos θ : ℝ) : ℂ); let s := ((Real.sin θ : ℝ) : ℂ)
+    let uh := Complex.exp ((hwpRetardance (Real.pi : ℂ)) * I); let uq := Complex.exp ((qwpRetardance (Real.pi : ℂ)) * I)
+    uh = -1 ∧ uq = I ∧ (retarder uh c s).mul (retarder uh c s) = M22.one ∧
+    (retarder uq c s).mul (retarder uq c s) = retarder uh c s := by
+  intro c s uh uq
+  have hh : uh = -1 := by
+    simp only [uh, (gen_wrappers (Real.pi : ℂ)).1]; exact Complex.exp_pi_mul_I
+  have hq : uq = I := by
+    simp only [uq, (gen_wrappers (Real.pi : ℂ)).2.1]; exact Complex.exp_pi_div_two_mul_I
+  have hcs : c ^ 2 + s ^ 2 = 1 := cos_sq_add_sin_sq' θ
+  refine ⟨hh, hq, ?_, ?_⟩
+  · rw [hh]; exact (retarder_compose (-1) (-1) c s hcs).2
+  · rw [(retarder_compose uq uq c s hcs).1, hq, hh]; congr 1; simp
 
 end mueller
 
